@@ -462,19 +462,42 @@ impl Link {
     }
 
     // Randomly break or repair this link.
+    //
+    // The random process only ever touches directions it owns: it breaks
+    // directions that are currently healthy and repairs directions it broke
+    // itself. A direction that was explicitly partitioned (or is held) keeps
+    // its state until the matching explicit call.
     fn rand_partition_or_repair(&mut self, global_config: &config::Link, rand: &mut dyn RngCore) {
         let do_rand = self.rand_partition(global_config.message_loss(), rand);
         match (self.state_a_b, self.state_b_a) {
             (State::Healthy, _) | (_, State::Healthy) if do_rand => {
-                self.state_a_b = State::RandPartition;
-                self.state_b_a = State::RandPartition;
+                let break_a_b = matches!(self.state_a_b, State::Healthy);
+                let break_b_a = matches!(self.state_b_a, State::Healthy);
+                if break_a_b {
+                    self.state_a_b = State::RandPartition;
+                }
+                if break_b_a {
+                    self.state_b_a = State::RandPartition;
+                }
 
-                self.sent.clear();
+                // Drop what is in flight on the directions that just broke.
+                self.sent.retain(|sent| {
+                    if sent.src.ip() < sent.dst.ip() {
+                        !break_a_b
+                    } else {
+                        !break_b_a
+                    }
+                });
             }
             (State::RandPartition, _) | (_, State::RandPartition)
                 if self.rand_repair(global_config.message_loss(), rand) =>
             {
-                self.release();
+                if matches!(self.state_a_b, State::RandPartition) {
+                    self.state_a_b = State::Healthy;
+                }
+                if matches!(self.state_b_a, State::RandPartition) {
+                    self.state_b_a = State::Healthy;
+                }
             }
             _ => {}
         }
